@@ -498,5 +498,133 @@ Proof.
   cbn [cobj]. repeat head_step.
   all: try reflexivity.
   all: try apply IH.
-  Show.
+  - match goal with |- cobj _ _ _ _ _ _ _ _ _ [?X; g ad] = _ =>
+      rewrite (cobj_acc_app o f _ _ _ _ _ _ None [X] [g ad]), (cobj_acc_app o f _ _ _ _ _ _ None [X] [ad]) end.
+    cbn [rev app]. rewrite head_pre. reflexivity.
+  - match goal with |- cobj _ _ _ _ _ _ _ _ ?A [g ad] = _ =>
+      rewrite (cobj_acc_app o f _ _ _ _ _ _ A [] [g ad]), (cobj_acc_app o f _ _ _ _ _ _ A [] [ad]) end.
+    cbn [rev app]. rewrite head_pre. reflexivity.
+  - destruct b; cbn [bind]; [apply IH|].
+    destruct (assign_def_attr o (drop 1 s0) l); cbn [bind]; try reflexivity.
+    rewrite <- Hg. apply IH.
 Qed.
+
+(* ---------- disabling the construct that a dotted name denotes *)
+Definition set_dis (o:obj) : obj := set_hdr o (with_dis (ohdr o) true).
+(* [adopt] turns "a.b.c = v" into nested single-child scopes a { b { c = v } }: the construct
+   proper sits [number of dots] levels down *)
+Fixpoint dis_depth (n:nat) (o:obj) : obj :=
+  match n with
+  | 0 => set_dis o
+  | S m => match o with Scp h [k] a => Scp h [dis_depth m k] a | other => other end
+  end.
+
+Lemma dis_depth_attach : forall n nm v x, dis_depth n (attach nm v x) = attach nm v (dis_depth n x).
+Proof.
+  induction n as [|n IH]; intros nm v x.
+  - destruct x as [h w a|h [|k [|k2 ks]] a]; reflexivity.
+  - destruct x as [h w a|h [|k [|k2 ks]] a]; try reflexivity.
+    cbn [attach dis_depth]. rewrite IH. reflexivity.
+Qed.
+
+Lemma wrap_dotted_dis : forall comps first x,
+  wrap_dotted first comps (set_dis x) = dis_depth (length comps - 1) (wrap_dotted first comps x).
+Proof.
+  induction comps as [|c rest IH]; intros first x; [reflexivity|].
+  destruct rest as [|c2 rest].
+  - cbn [wrap_dotted length Nat.sub dis_depth]. destruct first; [reflexivity|].
+    destruct x; reflexivity.
+  - change (wrap_dotted first (c :: c2 :: rest) (set_dis x))
+      with (Scp (mkhdr c false 0 (negb first) 0 0) [wrap_dotted false (c2 :: rest) (set_dis x)] []).
+    change (wrap_dotted first (c :: c2 :: rest) x)
+      with (Scp (mkhdr c false 0 (negb first) 0 0) [wrap_dotted false (c2 :: rest) x] []).
+    rewrite IH.
+    replace (length (c :: c2 :: rest) - 1) with (S (length (c2 :: rest) - 1)) by (cbn [length]; lia).
+    reflexivity.
+Qed.
+
+Lemma adopt_dis : forall x,
+  adopt (set_dis x) = dis_depth (length (splitdot (oname (ohdr x))) - 1) (adopt x).
+Proof.
+  intros x. unfold adopt.
+  replace (oname (ohdr (set_dis x))) with (oname (ohdr x)) by (destruct x; reflexivity).
+  apply wrap_dotted_dis.
+Qed.
+
+Fixpoint map_at (n:nat) (g:obj -> obj) (l:list obj) : list obj :=
+  match l with
+  | [] => []
+  | x :: r => match n with 0 => g x :: r | S m => x :: map_at m g r end
+  end.
+Definition nth_res (n:nat) (g:obj -> obj) (r:res (list obj * str * nat * nat)) : res (list obj * str * nat * nat) :=
+  match r with Ok (objs, a, b, c) => Ok (map_at n g objs, a, b, c) | r => r end.
+Lemma map_at_app : forall p g l, map_at (length p) g (p ++ l) = p ++ map_at 0 g l.
+Proof. induction p as [|x p IH]; intros g l; [reflexivity|]. cbn [length app map_at]. rewrite IH. reflexivity. Qed.
+Lemma nth_bind : forall {A} n g (r:res A) k, nth_res n g (bind r k) = bind r (fun a => nth_res n g (k a)).
+Proof. intros A n g [a| |] k; reflexivity. Qed.
+Lemma nth_pre_head : forall p g r, nth_res (length p) g (pre_res p r) = pre_res p (head_res g r).
+Proof.
+  intros p g [[[[objs b] c] d]| |]; try reflexivity.
+  cbn [pre_res nth_res]. rewrite map_at_app. destruct objs; reflexivity.
+Qed.
+Lemma nth_pre_last : forall p g x r, nth_res (length p) g (pre_res (p ++ [x]) r) = pre_res (p ++ [g x]) r.
+Proof.
+  intros p g x [[[[objs b] c] d]| |]; try reflexivity.
+  cbn [pre_res nth_res]. rewrite <- !app_assoc, map_at_app. reflexivity.
+Qed.
+
+(* the tests that [cobj] makes on the leading word, for "!word" and for "word" *)
+Lemma lead_tests_bang : forall v,
+  eqs ("!" :: v) intro = false /\ eqs ("!" :: v) ["}"] = false /\ eqs ("!" :: v) ["{"] = false
+  /\ strip_bang ("!" :: v) = (v, true).
+Proof. intros v. repeat split. Qed.
+Lemma lead_tests_plain : forall c w, wstart s0 c = true -> c <> "!" ->
+  eqs (c :: w) intro = false /\ eqs (c :: w) ["}"] = false /\ eqs (c :: w) ["{"] = false
+  /\ strip_bang (c :: w) = (c :: w, false).
+Proof.
+  intros c w Hs Hb.
+  assert (Hne : Ascii.eqb c "!" = false) by (apply Ascii.eqb_neq; exact Hb).
+  unfold wstart, wchar in Hs.
+  apply andb_prop in Hs as [Hs _]. apply andb_prop in Hs as [Hs H3]. apply andb_prop in Hs as [_ H2].
+  apply negb_true_iff in H2, H3. cbn [mem single comment s0] in H2, H3.
+  apply orb_false_iff in H2 as [Ha H2]. apply orb_false_iff in H2 as [Hb' H2]. apply orb_false_iff in H3 as [Hh _].
+  unfold intro. cbn [s_ String.list_ascii_of_string eqs strip_bang]. rewrite Ha, Hb', Hh, Hne. repeat split.
+Qed.
+
+Definition flushed (active:option obj) (acc:list obj) : list obj :=
+  match active with Some d => d :: acc | None => acc end.
+(* number of dots in the name that starts at this position *)
+Definition name_depth (s:str) (line:nat) : nat :=
+  match nw s0 false s line with TWord w _ _ => length (splitdot (wv w)) - 1 | _ => 0 end.
+
+Ltac nth_step :=
+  match goal with
+  | |- ?x = ?x => reflexivity
+  | |- _ = nth_res _ _ (bind _ _) => rewrite nth_bind
+  | |- bind ?r _ = bind ?r _ => destruct r; cbn [bind]
+  | |- match ?x with _ => _ end = _ => destruct x
+  | |- (let (_, _) := ?x in _) = _ => destruct x
+  end.
+
+(* T5 at the level of one [cobj] iteration (any depth, any state): "!" glued to the name of a
+   definition or scope sets the disabled flag of exactly that object, and changes nothing else -
+   the other objects, the remaining input, the ids, and every error are identical. *)
+Theorem cobj_bang : forall o f c s line nid stop start prev active acc,
+  wstart s0 c = true -> c <> "!" -> c <> "." ->
+  cobj o f ("!" :: c :: s) line nid stop start prev active acc
+  = nth_res (length (flushed active acc)) (dis_depth (name_depth (c :: s) line))
+      (cobj o f (c :: s) line nid stop start prev active acc).
+Proof.
+  intros o f c s line nid stop start prev active acc Hs Hb Hd.
+  destruct f as [|f]; [reflexivity|].
+  cbn [cobj]. unfold name_depth. rewrite (nw_bang c s line Hs), (nw_start s0 c s line eq_refl Hs).
+  destruct (take s0 s) as [w r]. cbn [bang_tok wv wq wline isq].
+  destruct (lead_tests_bang (c :: w)) as (B1 & B2 & B3 & B4).
+  destruct (lead_tests_plain c w Hs Hb) as (P1 & P2 & P3 & P4).
+  rewrite B1, B2, B3, B4, P1, P2, P3, P4. cbn [andb].
+  rewrite !andb_false_r.
+  assert (Hdot : prefixb ["."] (c :: w) = false).
+  { cbn [prefixb]. rewrite Ascii.eqb_sym. apply Ascii.eqb_neq in Hd. rewrite Hd. reflexivity. }
+  rewrite Hdot. cbn [negb].
+  Show.
+Abort.
